@@ -11,10 +11,11 @@ EXTENDS Integers, Sequences, FiniteSets, TLC, Json
 
 Log == ndJsonDeserialize("trace.ndjson")
 
-VARIABLES l, cfg, npre, nsamp, trig, truth, epoch, prims, checked, conn, cyc, everConn, runA, runB
-vars == <<l, cfg, npre, nsamp, trig, truth, epoch, prims, checked, conn, cyc, everConn, runA, runB>>
+VARIABLES l, cfg, npre, nsamp, trig, truth, epoch, prims, checked, conn, cyc, everConn, runA, runB,
+          blocks   \* blocks delivered so far in this run: [first, n, ts] (ts = time stamp of the block's first sample, ns)
+vars == <<l, cfg, npre, nsamp, trig, truth, epoch, prims, checked, conn, cyc, everConn, runA, runB, blocks>>
 
-Init == /\ l = 1 /\ cfg = [scen |-> 0, nchan |-> 0, run |-> "B"] /\ npre = 0 /\ nsamp = 0 /\ trig = <<>> /\ truth = <<>>
+Init == /\ blocks = <<>> /\ l = 1 /\ cfg = [scen |-> 0, nchan |-> 0, run |-> "B"] /\ npre = 0 /\ nsamp = 0 /\ trig = <<>> /\ truth = <<>>
         /\ epoch = <<>> /\ prims = <<>> /\ checked = <<>> /\ conn = {} /\ cyc = <<>> /\ everConn = FALSE
         /\ runA = <<>> /\ runB = <<>>
 
@@ -97,7 +98,11 @@ RecPreds(e) ==
     \cup When(varlen /\ (e.n > nsamp \/ e.npre > npre \/ e.n < 1 \/ e.npre < 0), "C01_len")
     \cup When(start < 0 \/ start + e.n > Len(truth[c + 1]), "C01_frame")
     \cup When(start >= 0 /\ start + e.n <= Len(truth[c + 1]) /\ e.s # SubSeq(truth[c + 1], start + 1, start + e.n), "C01_excerpt")
-    \cup When(e.t # e.f * cfg.period, "C01_time")
+    \* the time the block stamps assign to the trigger sample: extrapolated at the nominal period from the stamp of the block
+    \* that delivered the sample, or from the stamp of the block being processed when the record was cut (the latest one)
+    \cup When(blocks = <<>> \/ ~\E k \in 1..Len(blocks) :
+                 /\ (k = Len(blocks) \/ (blocks[k].first <= e.f /\ e.f < blocks[k].first + blocks[k].n))
+                 /\ e.t = blocks[k].ts + (e.f - blocks[k].first) * cfg.period, "C01_time")
     \cup When(e.signed # cfg.signed, "C01_label")
 
 \* connection edits as a set
@@ -123,6 +128,8 @@ AnyEM == \E c \in Chans : trig[c + 1].em
 
 Step ==
   /\ l <= Len(Log) /\ l' = l + 1
+  /\ blocks' = (IF Log[l].ev = "Config" THEN <<>>
+                ELSE IF Log[l].ev = "Block" THEN Append(blocks, [first |-> Log[l].first, n |-> Log[l].n, ts |-> Log[l].ts]) ELSE blocks)
   /\ LET e == Log[l] IN
      CASE e.ev = "Config" ->
             /\ cfg' = e /\ npre' = e.npre /\ nsamp' = e.nsamp /\ trig' = e.trig
